@@ -24,10 +24,13 @@
 (*     statement fixes; full key = array cell; nested single-field indexing = the same  *)
 (*     cell; an outer-domain element always wins; list selection restricts and orders;  *)
 (*     foreign keys are errors; views always denote original cells.                     *)
-(* TLC explores, for every table of the batch, all selector chains of length <= T.L     *)
-(* drawn from Menu (grammar of the statement, width T.W) and emits for every state the  *)
-(* expected result of every outgoing transition (pipeline A: one implementation test    *)
-(* per transition).                                                                     *)
+(* TLC explores, for every table of the batch, all views reachable by selector chains   *)
+(* of length <= T.L drawn from Menu (grammar of the statement, width T.W).  The         *)
+(* invariant Judge evaluates O and R once per (view, selector), checks the four         *)
+(* per-transition properties and emits the expected result of every outgoing transition *)
+(* (pipeline A: one implementation test per transition of the state graph); the same    *)
+(* properties are also stated one by one (RefinesOracle, OuterElementWins, ...).        *)
+(* Shapes the statement does not fix (DriftShape) are emitted with R's prediction only. *)
 EXTENDS Integers, Sequences, FiniteSets, TLC, Json, IOUtils, SequencesExt
 
 Batch == JsonDeserialize(IOEnv.BATCH_FILE)
